@@ -324,6 +324,8 @@ def rich_cells(rng):
     spans = [e * mult] * n_coarse + [e] * n_fine
     if mode == "overlap":
         spans = [e] * n_fine
+    elif mode == "mixed" and rng.random() < 0.3:
+        spans = spans[::-1]                    # the long periods LAST (the array is sized by the last period's start)
     for i, span in enumerate(spans):
         ps = cur
         pe = gen.add_months_int(ps, span - 1, end=True)
